@@ -66,4 +66,18 @@ def deliveredCount {P : Type} (catches : List String) (cb : List (P × Timestamp
         (if maxPackets = 1 then 1 else 1 + deliveredCount catches cb rest (maxPackets - 1) (hist ++ [p]))
       else 1
 
+/-! ### sessions: the property for any sequence of calls on one live sniffer -/
+
+/-- the per-frame handler `next_packet` works with for a raw mode and a link type -/
+def modeKind (raw : Bool) (dlt : Nat) : HandlerKind :=
+  match selectHandler raw dlt with
+  | .ok hk => hk
+  | .error _ => .unknown "none"
+
+/-- what a frame contributes to the output when `next_packet` reaches it while raw mode `e.2.1` and filter `e.2.2`
+    are in force: the packet it parses to, if the filter accepts it and it parses; nothing otherwise -/
+def deliver {P : Type} (parse : String → Bytes → POut P) (dlt : Nat) (e : Frame × Bool × (Frame → Bool)) :
+    Option (P × Timestamp) :=
+  if e.2.2 e.1 then (parsesAs parse (modeKind e.2.1 dlt) e.1).map (fun p => (p, e.1.ts)) else none
+
 end Tins.Capture
